@@ -7,18 +7,28 @@
           I/<int>/<fmt>                          a[i] = FmtStr
           G/<idx>/<idx>                          a[r, c]
           R/<idx>                                a[i] / a[i:j]
-      idx  i<int> | s<optint>:<optint>           item  s<fmt> (a str) | f<fmt>
+      idx  i<int> | s<optint>:<optint>           item  s<text> (a plain str, raw) | f<fmt>
+      (a column subscript that normalises to stop < start answers bad-op: splice with end < start is outside the model)
     reply: one token per op, then the final state
       set ops  ok@<rows> | E:<kind>@<rows>       (the rows after the call: `rows.extend` happens before validation)
       get ops  row=<fmt> | rows=<rows> | E:<kind>
       final=<numColumns>=<rows>                  rows = fmts joined by '&'
 
-    fsarray <width|N> A<atts> <fmt> <fmt> ...    ->  ok <numColumns>=<rows> | E:<kind>
+    fsarray <width|N> A<atts> <item> <item> ...  ->  ok <numColumns>=<rows> | E:<kind>
+
+  and the str-or-FmtStr operand forms of the FmtStr operations (Model/SpliceOp.lean), operand = item syntax:
+    spliceop <fmt> <item> <start> <end|N>        ->  ok <fmt> | E:<kind>     (end < start: bad-op)
+    appendop <fmt> <item>                        ->  ok <fmt> | E:<kind>
+    setsliceop <fmt> <a> <b> <item> <length>     ->  ok <fmt> | E:<kind>     (b < a: bad-op)
 -/
 import Curtsies.Wire
 import Curtsies.Model.FSArray
+import Curtsies.Generated.EscParse
 namespace Curtsies.Driver.FSArray
-open Curtsies Curtsies.Wire Curtsies.FSArray
+open Curtsies Curtsies.Wire Curtsies.FSArray Curtsies.Splice
+
+/-- `sys.get_int_max_str_digits()` of the live interpreter -/
+def md : Nat := Generated.intMaxStrDigits
 
 def decIdx (s : String) : Option Index :=
   let k := s.take 1 |>.toString
@@ -30,11 +40,11 @@ def decIdx (s : String) : Option Index :=
     | _ => none
   else none
 
-def decItem (s : String) : Option (Bool × FmtStr) :=
+def decItem (s : String) : Option Operand :=
   let k := s.take 1 |>.toString
   let v := s.drop 1 |>.toString
-  if k == "s" then (decFmt v).map fun f => (true, f)
-  else if k == "f" then (decFmt v).map fun f => (false, f)
+  if k == "s" then (decText v).map Operand.str
+  else if k == "f" then (decFmt v).map Operand.fmt
   else none
 
 def encRows (l : List FmtStr) : String := "&".intercalate (l.map encFmt)
@@ -45,10 +55,14 @@ def encOutcome (r : FSArr × Except PyErr Unit) : String :=
 def fsaStep (a : FSArr) (op : String) : Option (FSArr × String) :=
   match op.splitOn "/" with
   | "S" :: r :: c :: st :: items => do
-    let res := a.setRegion (← decIdx r) (← decIdx c) ⟨st == "1", ← items.mapM decItem⟩
+    let c ← decIdx c
+    match normalizeSlice a.numColumns c with
+    | .ok cs => if cs.2 < cs.1 then none else pure ()
+    | .error _ => pure ()
+    let res := a.setRegion md (← decIdx r) c ⟨st == "1", ← items.mapM decItem⟩
     pure (res.1, encOutcome res)
   | "T" :: r :: st :: items => do
-    let res := a.setRowsSlice (← decIdx r) ⟨st == "1", ← items.mapM decItem⟩
+    let res := a.setRowsSlice md (← decIdx r) ⟨st == "1", ← items.mapM decItem⟩
     pure (res.1, encOutcome res)
   | ["I", i, f] => do
     let res := a.setRowInt (← i.toInt?) (← decFmt f)
@@ -73,7 +87,7 @@ def fsaRun (a : FSArr) : List String → List String → Option (List String)
 end Curtsies.Driver.FSArray
 
 namespace Curtsies.Driver
-open Curtsies Curtsies.Wire Curtsies.FSArray Curtsies.Driver.FSArray
+open Curtsies Curtsies.Wire Curtsies.FSArray Curtsies.Splice Curtsies.Driver.FSArray
 
 def fsaOps (args : List String) : Option String :=
   match args with
@@ -84,10 +98,21 @@ def fsaOps (args : List String) : Option String :=
   | "fsarray" :: w :: atts :: items => do
     let w ← decOptNat w
     let atts ← decAtts (atts.drop 1).toString
-    let items ← items.mapM decFmt
-    pure (match fsarray items w atts with
+    let items ← items.mapM decItem
+    pure (match fsarray md items w atts with
       | .ok a => "ok " ++ toString a.numColumns ++ "=" ++ encRows a.rows
       | .error e => "E:" ++ e.name)
+  | ["spliceop", f, new, start, e] => do
+    let st ← start.toNat?
+    let en ← decOptNat e
+    if en.getD st < st then none
+    else pure (encExcept encFmt (spliceOp md (← decFmt f) (← decItem new) st en))
+  | ["appendop", f, new] => do pure (encExcept encFmt (appendOp md (← decFmt f) (← decItem new)))
+  | ["setsliceop", f, a, b, fs, l] => do
+    let a ← a.toNat?
+    let b ← b.toNat?
+    if b < a then none
+    else pure (encExcept encFmt (setsliceOp md (← decFmt f) a b (← decItem fs) (← l.toNat?)))
   | _ => none
 
 end Curtsies.Driver
